@@ -1,9 +1,9 @@
 (* C18/Extract.v — extraction of the executable model (ExtrOcamlBasic only; Z stays inductive) *)
 Require Extraction. Require ExtrOcamlBasic.
-From NV Require Import Base.PySlice C18.Model C18.ModelXml.
+From NV Require Import Base.PySlice C18.Model C18.ModelXml C18.ModelJoin.
 Extraction Language OCaml.
 Extraction "c18_model.ml" py_indices resolve select ser_time ser_getitem ser_add ser_eqb
   sc_getitem sc_add sc_elements lab_getitem lab_add lab_elements par_getitem par_add par_elements
   bm_make bm_getitem bm_get_element bm_add bm_elements bm_eqb bm_runs bm_iter_structures
   bm_to_mapping bm_from_mapping axis_eqb axis_len axis_enc axis_dec to_header get_axis
-  img_save img_load set_cifti_ext first_cifti_ext write parse norm strip.
+  img_save img_load set_cifti_ext first_cifti_ext write parse norm strip xenc xdec norm_payload.
